@@ -9,7 +9,7 @@ use adf_bdd::datatypes::{Term, Var};
 
 pub const CALLS: usize = 15;
 /// the alphabet plus the enumerations that are abandoned after their first model (C11)
-pub const CALLS_EXT: usize = 19;
+pub const CALLS_EXT: usize = 20;
 pub const CALL_NAMES: [&str; CALLS_EXT] = [
     "grounded",
     "complete",
@@ -30,6 +30,7 @@ pub const CALL_NAMES: [&str; CALLS_EXT] = [
     "stable(): first model taken, the enumeration abandoned",
     "stable_with_prefilter(): first model taken, the enumeration abandoned",
     "stable_count_optimisation_heu_a(): first model taken, the enumeration abandoned",
+    "fix_import() (the repair step, on an object that does not need it)",
 ];
 
 /// what a call returned, in raw form (handles as issued)
@@ -120,6 +121,10 @@ pub fn exec(adf: &mut Adf, call: usize) -> Raw {
         16 => Raw::Models(adf.stable().take(1).collect()),
         17 => Raw::Models(adf.stable_with_prefilter().take(1).collect()),
         18 => Raw::Models(adf.stable_count_optimisation_heu_a().take(1).collect()),
+        19 => {
+            adf.fix_import();
+            Raw::Handles(vec![])
+        }
         _ => {
             let ac = adf.ac.clone();
             let mut hs = vec![];
